@@ -2,6 +2,7 @@ import Model.Cache
 import Model.Numscript.Spec
 import Model.Numscript.VM
 import Lemmas.NumRun
+import Lemmas.NumCheck
 import Generated.Opcodes
 /-! C08 — compiled programs do what the source says.
 `Spec.run` is the definition of "what the source text says".  What is proved here (growing):
@@ -37,6 +38,55 @@ theorem opcode_in_table (i : Instr) : (i.name, i.opcode) ∈ Num.opcodeTable := 
 needed balances and sources (or to the same refusal) — no hidden state, whatever was compiled before -/
 theorem compile_deterministic (P : Script) (r₁ r₂ : Except CompileErr Program)
     (h₁ : compile P = r₁) (h₂ : compile P = r₂) : r₁ = r₂ := h₁ ▸ h₂ ▸ rfl
+
+/-! #### the compiler refuses exactly what the language rejects
+
+`Num.check` is the statement of the static rules (typing, portion sums, `remaining` uniqueness, unbounded-not-last,
+world-with-overdraft, already-emptied account, send-all on an allotment / unbounded source).  The compiler model —
+which is byte-for-byte the real compiler on every generated program — has two more ways to stop, both size limits
+(more than 65536 resources, more than 32768 variables), kept as separate outcomes.  `Lemmas/NumCheck.lean` proves,
+visitor by visitor, `CkSpec (visitX …) (checkX …)`: success needs the check to pass, a static refusal needs it to
+fail, and the nil `*Address` that `VisitExpr` returns for number arithmetic is never dereferenced. -/
+
+/-- a program that compiles satisfies the static rules (so `Spec.run` does not stop at its `check`) -/
+theorem compile_accepts_checked (P : Script) (prog : Program) (h : compile P = .ok prog) : check P = true := by
+  have := compile_ck P
+  rw [h] at this
+  exact this.1
+
+/-- a refusal for a static reason is a refusal of the language -/
+theorem compile_static_rejects (P : Script) (h : compile P = .error .static) : check P = false := by
+  have := compile_ck P
+  rw [h] at this
+  exact this
+
+/-- whatever the language rejects is refused (never run) -/
+theorem compile_rejects_unchecked (P : Script) (h : check P = false) : ∃ e, compile P = .error e := by
+  cases hc : compile P with
+  | error e => exact ⟨e, rfl⟩
+  | ok prog => rw [compile_accepts_checked P prog hc] at h; cases h
+
+/-- **compile rejects exactly when check does** — for every program that does not hit one of the two size limits
+of the compiler (65536 resources, 32768 variables), which are outcomes of their own -/
+theorem compile_rejects (P : Script) (hr : compile P ≠ .error .tooManyResources) (hv : compile P ≠ .error .tooManyVars) :
+    (∃ e, compile P = .error e) ↔ check P = false := by
+  constructor
+  · rintro ⟨e, he⟩
+    have := compile_ck P
+    rw [he] at this
+    cases e with
+    | static => exact this
+    | nilAddr => exact this.elim
+    | tooManyResources => exact absurd he hr
+    | tooManyVars => exact absurd he hv
+  · exact compile_rejects_unchecked P
+
+/-- non-vacuity of the side conditions: a small program hits no limit -/
+example : compile ⟨[], [.fail]⟩ ≠ .error .tooManyResources ∧ compile ⟨[], [.fail]⟩ ≠ .error .tooManyVars := by
+  simp [compile, visitVars, visitVarList, visitStmts, visitStmt]
+
+/-- and the rejection is real: an ill-typed program is refused by both -/
+example : check ⟨[], [.print (.add (.num 1) (.str "x"))]⟩ = false := by decide
 
 /-! #### compiler correctness
 
